@@ -205,7 +205,37 @@ class Evidence:
         if len(self.cov["samples"]) < 8:
             self.cov["samples"].append(s)
 
+    def add_hits(self, out: str):
+        """Vacuity accounting (spec/Hits.tla): sum the <<"HIT", tid, mask>> lines of one TLC run
+        per clause, using the <<"CLAUSES", json>> line of the same run for the bit order."""
+        names = None
+        for line in out.splitlines():
+            if line.startswith('<<"CLAUSES", '):
+                names = json.loads(json.loads(line[13:-2]))
+                break
+        if names is None:
+            return
+        hits = self.cov.setdefault("clause_exercised", {})
+        for c in names:
+            hits.setdefault(c, 0)
+        for line in out.splitlines():
+            if line.startswith('<<"HIT", '):
+                m = re.match(r'^<<"HIT", \d+, (\d+)>>$', line)
+                if not m:
+                    raise MachineryError(f"unparsable HIT line: {line[:120]}")
+                mask = int(m.group(1))
+                for i, c in enumerate(names):
+                    if mask >> i & 1:
+                        hits[c] += 1
+
     def write(self, verdict: Verdict, extra: dict | None = None):
+        # clauses of this property that no recorded trace exercised (premise never true): named, not failed
+        hits = self.cov.get("clause_exercised")
+        if hits is not None:
+            never = sorted(c for c, n in hits.items() if c.startswith(self.pid + ".") and n == 0)
+            self.cov["clauses_never_exercised"] = never
+            for c in never:
+                print(f"NOTE property={self.pid} clause={c} was never exercised by a recorded trace (vacuous on this run)")
         cov = dict(self.cov)
         if extra:
             cov.update(extra)
@@ -325,4 +355,5 @@ def tlc_judge(module: str, cfg: str, traces: list, ev: "Evidence", label: str, c
         if len(done) != len(part):
             raise MachineryError(f"{module} {label}: {len(done)} of {len(part)} traces judged to the end")
         ev.add_tlc(f"{module}[{label}#{b // chunk}]", r, f"{len(part)} recorded traces")
+        ev.add_hits(r.out)
     return fails, drifts
